@@ -11,7 +11,7 @@ Print Assumptions C15_generator_facts.
 
 (* For ALL programs (any nesting depth) obeying the placement rules [wf_prog] - break/continue inside a loop of
    the same function, `in` inside a do-expression, deferred blocks that do not jump out of themselves and
-   contain no further defer, no defer directly in a case block ending in fallthrough - and ALL oracles:
+   contain no further defer, <close> types resolved in declaration order - and ALL oracles:
    the emitted code (static stitching of the clean-up, no defer mechanism) produces exactly the trace and
    result of the reference semantics (every executed defer once, innermost first, after the returned value
    was evaluated; `until` condition before the body's defers). *)
@@ -24,13 +24,6 @@ Print Assumptions C15_defer_compile_correct_partial.
 Theorem C15_defer_compile_correct_refuted : ~ defer_compile_correct_full.
 Proof. exact defer_compile_correct_refuted. Qed.
 Print Assumptions C15_defer_compile_correct_refuted.
-
-(* witness 1: a defer directly in a case block that ends in `fallthrough` is never run *)
-Theorem C15_refuted_fallthrough :
-  accepted witness_fallthrough = true /\
-  tgt_sem (compile witness_fallthrough) (st0 [0]) <> ref_sem witness_fallthrough (st0 [0]).
-Proof. exact refuted_fallthrough. Qed.
-Print Assumptions C15_refuted_fallthrough.
 
 (* witness 2: `return` inside a deferred block skips the other defers of the scope being closed *)
 Theorem C15_refuted_escape :
